@@ -22,6 +22,12 @@ def run(chk):
             if e:
                 cases.append({"script": e[0]})
                 meta.append(("edit", e[1]))
+    # sizes: the same scripts with 12…257 more declared variables that nobody uses (each must be reported, nothing else)
+    for i in range(0, len(cases), 29):
+        pv = gen_check.pad_vars(cases[i]["script"], rng)
+        if pv:
+            cases.append({"script": pv})
+            meta.append(meta[i])
     gos, models = A.analyze_both(cases)
     fails, dis = [], []
     stats = {"evaluations": len(cases), "distinct_nontrivial": 0, "model_comparisons": 0, "valid_scripts": 0, "edited_scripts": 0}
